@@ -157,12 +157,11 @@ def register_gather(R):
     # gather_details: every source detail arrives under a name that was free (renamed on collision), nothing already in the
     # target is dropped or overwritten; one new entry per source entry (loop body contract)
     R.contract(TC + "gather_details", props=["C05"], params={"source_dict": "dict[any=>SrcContent]", "target_dict": "dict"},
-               requires=["source_dict is not target_dict"],
                modifies=["dict(target_dict)"],
                ensures=["forall(lambda vk: implies(old(kwget(dictof(target_dict), vk)) is not absent(), kwget(dictof(target_dict), vk) == old(kwget(dictof(target_dict), vk))))",
-                        "dictof(source_dict) == old(dictof(source_dict))"],
+                        "implies(source_dict is not target_dict, dictof(source_dict) == old(dictof(source_dict)))"],
                loops={0: dict(invariant=["forall(lambda vk: implies(old(kwget(dictof(target_dict), vk)) is not absent(), kwget(dictof(target_dict), vk) == old(kwget(dictof(target_dict), vk))))",
-                                         "dictof(source_dict) == old(dictof(source_dict))", "frame_ok('f:n')"],
+                                         "implies(source_dict is not target_dict, dictof(source_dict) == old(dictof(source_dict)))", "frame_ok('f:n')"],
                               body_ensures=["iter0(kwget(dictof(target_dict), name)) is absent()",
                                             "dictof(target_dict) == store(iter0(dictof(target_dict)), name, kwget(dictof(target_dict), name))",
                                             "is_ref(kwget(dictof(target_dict), name)) and not allocated(kwget(dictof(target_dict), name))",
@@ -217,7 +216,8 @@ def register_patch(R):
     # useFixture: set up; on success register cleanUp, then the gathering of the fixture's details (which therefore runs first)
     R.shape("AFixture", setUp=dict(signature="", event=True, returns="any", exsures=["True"]),
             cleanUp=dict(signature="", event=True, returns="any", exsures=["True"]),
-            getDetails=dict(signature="", returns="dict[any=>SrcContent]", pure=True))
+            # fixtures.Fixture.getDetails builds a new combined dict on every call (assumed library behaviour)
+            getDetails=dict(signature="", returns="dict[any=>SrcContent]", pure=True, ensures=["not allocated(ret)"]))
     R.fields_of("AFixture", _details="maybe any")
 
 
